@@ -98,7 +98,13 @@ func (_this *Context) SwapBuilder(builder Builder) Builder {
 
 func (_this *Context) ArtificiallyTerminate() {
 	for len(_this.builderStack) > 1 {
+		stackDepth := len(_this.builderStack)
 		_this.CurrentBuilder.BuildArtificiallyEndContainer(_this)
+		if len(_this.builderStack) >= stackDepth {
+			// The top builder is not a container that can end itself
+			// (pointer, interface, edge, ...). Drop it, or this never ends.
+			_this.UnstackBuilder()
+		}
 	}
 }
 
